@@ -473,13 +473,28 @@ def json_safe_py(o):
 
 
 # --------------------------------------------------------------------------- independent conformance check (C05)
-def conforms(o, spec, reg, path='$'):
+def accepts_none(spec):
+    t = spec['t']
+    if t in ('none', 'opt'): return True
+    if t == 'union': return any(e['t'] == 'none' for e in spec['es'])
+    if t == 'lit': return any(v['v'] == 'none' for v in spec['vs'])
+    return False
+
+
+def conforms(o, spec, reg, path='$', lax=None):
     """None if `o` is a value of the annotated type `spec` (exact container type, element types,
-    Literal members by value and type, Union members, nested dataclass types); else a description."""
+    Literal members by value and type, Union members, nested dataclass types); else a description.
+    With `lax` (a set) the three listed leniencies of the default engine are admitted and recorded:
+    F25 annotation None keeps anything, F23 Union without None passes None, F24 short fixed tuple."""
     t = spec['t']
     bad = lambda why: '%s: %s (got %s %r)' % (path, why, type(o).__name__, repr(o)[:60])
+    rec = lambda x, s, p: conforms(x, s, reg, p, lax)
     if t == 'any': return None
-    if t == 'none': return None if o is None else bad('expected None')
+    if t == 'none':
+        if o is None: return None
+        if lax is not None:
+            lax.add('F25-none-annotation-accepts-anything'); return None
+        return bad('expected None')
     simple = {'bool': bool, 'int': int, 'float': float, 'str': str, 'bytes': bytes, 'bytearray': bytearray}
     if t in simple:
         return None if type(o) is simple[t] else bad('expected ' + t)
@@ -496,34 +511,45 @@ def conforms(o, spec, reg, path='$'):
         want = {'list': list, 'set': set, 'frozenset': frozenset, 'deque': collections.deque}[spec['k']]
         if type(o) is not want: return bad('expected ' + spec['k'])
         for i, x in enumerate(o):
-            r = conforms(x, spec['e'], reg, '%s[%d]' % (path, i))
+            r = rec(x, spec['e'], '%s[%d]' % (path, i))
             if r: return r
         return None
     if t == 'tuple':
         if type(o) is not tuple: return bad('expected tuple')
-        if len(o) != len(spec['es']): return bad('expected %d elements' % len(spec['es']))
+        if len(o) != len(spec['es']):
+            req = sum(1 for e in spec['es'] if not accepts_none(e))
+            if lax is not None and req <= len(o) < len(spec['es']):
+                lax.add('F24-short-tuple-with-optional-members')
+            else:
+                return bad('expected %d elements' % len(spec['es']))
         for i, (x, e) in enumerate(zip(o, spec['es'])):
-            r = conforms(x, e, reg, '%s[%d]' % (path, i))
+            r = rec(x, e, '%s[%d]' % (path, i))
             if r: return r
         return None
     if t == 'vartuple':
         if type(o) is not tuple: return bad('expected tuple')
         for i, x in enumerate(o):
-            r = conforms(x, spec['e'], reg, '%s[%d]' % (path, i))
+            r = rec(x, spec['e'], '%s[%d]' % (path, i))
             if r: return r
         return None
     if t == 'dict':
         want = {'dict': dict, 'defaultdict': collections.defaultdict, 'ordered': collections.OrderedDict}[spec['k']]
         if type(o) is not want: return bad('expected ' + spec['k'])
         for k, x in o.items():
-            r = conforms(k, spec['kt'], reg, path + '.key') or conforms(x, spec['vt'], reg, '%s[%r]' % (path, k))
+            r = rec(k, spec['kt'], path + '.key') or rec(x, spec['vt'], '%s[%r]' % (path, k))
             if r: return r
         return None
     if t == 'opt':
-        return None if o is None else conforms(o, spec['e'], reg, path)
+        return None if o is None else rec(o, spec['e'], path)
     if t == 'union':
-        rs = [conforms(o, e, reg, path) for e in spec['es']]
-        return None if any(r is None for r in rs) else bad('in no Union member')
+        for e in spec['es']:
+            trial = set() if lax is not None else None
+            if conforms(o, e, reg, path, trial) is None:
+                if trial: lax.update(trial)
+                return None
+        if o is None and lax is not None:
+            lax.add('F23-union-without-none-passes-none'); return None
+        return bad('in no Union member')
     if t == 'lit':
         for v in spec['vs']:
             m = build_value(v, reg)
@@ -533,7 +559,7 @@ def conforms(o, spec, reg, path='$'):
         cls = reg.by_id[('nt', spec['id'])]
         if type(o) is not cls: return bad('expected ' + spec['name'])
         for (fname, ft, _), x in zip(spec['fields'], o):
-            r = conforms(x, ft, reg, path + '.' + fname)
+            r = rec(x, ft, path + '.' + fname)
             if r: return r
         return None
     if t == 'td':
@@ -543,7 +569,7 @@ def conforms(o, spec, reg, path='$'):
             if k not in o: return bad('missing required key %r' % k)
         for k, x in o.items():
             if k not in allowed: return bad('unexpected key %r' % (k,))
-            r = conforms(x, allowed[k], reg, '%s[%r]' % (path, k))
+            r = rec(x, allowed[k], '%s[%r]' % (path, k))
             if r: return r
         return None
     if t == 'data':
@@ -551,7 +577,7 @@ def conforms(o, spec, reg, path='$'):
         if type(o) is not cls: return bad('expected instance of ' + spec['name'])
         for fd in spec['fields']:
             if not hasattr(o, fd['name']): return bad('field %s unset' % fd['name'])
-            r = conforms(getattr(o, fd['name']), fd['ty'], reg, path + '.' + fd['name'])
+            r = rec(getattr(o, fd['name']), fd['ty'], path + '.' + fd['name'])
             if r: return r
         return None
     raise ValueError(spec)
